@@ -815,11 +815,21 @@ impl Checker<'_> {
 
             // --- unclaimed user-key event: quiet / unanswered delete or pdelete?
             if e.del {
+                // session order: a request cannot take effect after a later request of the same
+                // session has
+                let mut max_placed: BTreeMap<usize, usize> = BTreeMap::new();
+                for g in &rp.groups {
+                    if g.pos != usize::MAX {
+                        let e = max_placed.entry(g.client).or_insert(0);
+                        *e = (*e).max(g.pos);
+                    }
+                }
                 let cand: Vec<usize> = self
                     .p
                     .ops
                     .iter()
                     .filter(|o| !o.placed && o.inv < e.seq)
+                    .filter(|o| o.pos > max_placed.get(&o.client).cloned().unwrap_or(0))
                     .filter(|o| match &o.req {
                         Some(CM::Delete(d)) => o.ans.is_none() && d.key == e.key,
                         Some(CM::PDelete(d)) => {
